@@ -237,7 +237,7 @@ def describe_file(path):
         vs = {}
         for n, v in nc.variables.items():
             e = {"dims": list(v.dimensions), "shape": [int(x) for x in v.shape]}
-            e["dtype"] = "vlen-str" if v.dtype is str else tag(v.dtype)
+            e["dtype"] = "vlen-str" if v.dtype is str else ("S1" if v.dtype.kind == "S" else tag(v.dtype))
             e["attrs"] = {a: canon_value(v.getncattr(a)) for a in v.ncattrs()}
             try:
                 ch = v.chunking()
